@@ -31,3 +31,13 @@ def between(start_prefix: str, end_prefix: str | None, include_end=False, contai
         j = ends[0] + (1 if include_end else 0)
         return body[i:j]
     return sel
+
+
+def stmt_containing(text: str):
+    """the unique top-level statement of the function body whose source contains `text`"""
+    def sel(fn):
+        hits = [st for st in fn.body if text in _src(st)]
+        if len(hits) != 1:
+            raise TargetMissing(f"statement containing {text!r}: {len(hits)} matches")
+        return hits
+    return sel
